@@ -9,8 +9,12 @@ package main
 // functions (Fn), runs of freshly constructed actions (Run, with the options copied from the
 // caller), and the control flow around them (If / Loop / Return) with conditions abstracted
 // to the option flags they test (CFlag), nil-tests of a call's last result (CErr) and
-// everything else (CData).  Statements without effect, call or return are dropped, so
-// renaming locals, adding log lines and reformatting do not change the table.
+// everything else (CData).  A `return` is ReturnOk when its last result is the literal nil,
+// ReturnErr when it is an error constructor or a variable the enclosing `if x != nil` proved
+// non-nil, Return otherwise; Pure marks an assignment of an error variable by a call the
+// translator ignores (kept only in front of an error test or a return, where it matters to
+// the checker).  Statements without effect, call or return are dropped, so renaming locals,
+// adding log lines and reformatting do not change the table.
 //
 // The TRUSTED part is the classification below: which receiver class a field selects
 // (skelFieldClass), which (class, method) pairs are effects (skelEffects), which are known
@@ -155,6 +159,8 @@ type skFunc struct {
 	events   map[string]string   // HookEvent constant name -> value
 	tracked  map[string]bool
 	typeName map[string]bool // package-level type names (conversions)
+	nonNil   map[string]bool // error variables known non-nil here (inside `if x != nil`)
+	hasErr   bool            // the last result of the function is an error
 }
 
 func (f *skFunc) classOf(e ast.Expr) string {
@@ -435,6 +441,74 @@ func (f *skFunc) cond1(e ast.Expr) (string, bool) {
 	return "CData", false
 }
 
+// impliesNonNil: the error variables x for which the condition implies x != nil
+func (f *skFunc) impliesNonNil(e ast.Expr) []string {
+	switch v := e.(type) {
+	case *ast.ParenExpr:
+		return f.impliesNonNil(v.X)
+	case *ast.BinaryExpr:
+		switch v.Op {
+		case token.LAND:
+			return append(f.impliesNonNil(v.X), f.impliesNonNil(v.Y)...)
+		case token.NEQ:
+			if id, ok := v.Y.(*ast.Ident); ok && id.Name == "nil" {
+				if x, ok := v.X.(*ast.Ident); ok && f.errVars[x.Name] {
+					return []string{x.Name}
+				}
+			}
+		}
+	}
+	return nil
+}
+
+// error constructors: the result is never nil (pkg/errors Wrap/Wrapf of a non-nil error)
+var skelErrCtor = map[string]bool{"errors.New": true, "errors.Errorf": true, "fmt.Errorf": true}
+var skelErrWrap = map[string]bool{"errors.Wrap": true, "errors.Wrapf": true}
+
+func (f *skFunc) returnKind(r *ast.ReturnStmt) string {
+	if !f.hasErr || len(r.Results) == 0 {
+		return "Return"
+	}
+	switch v := r.Results[len(r.Results)-1].(type) {
+	case *ast.Ident:
+		if v.Name == "nil" {
+			return "ReturnOk"
+		}
+		if f.nonNil[v.Name] {
+			return "ReturnErr"
+		}
+	case *ast.CallExpr:
+		n := skExprName(v.Fun)
+		if skelErrCtor[n] {
+			return "ReturnErr"
+		}
+		if skelErrWrap[n] && len(v.Args) > 0 {
+			if id, ok := v.Args[0].(*ast.Ident); ok && f.nonNil[id.Name] {
+				return "ReturnErr"
+			}
+		}
+	}
+	return "Return"
+}
+
+// pure appends a Pure node when the statement assigned an error variable and none of the
+// calls it made is tracked: the value tested next does not come from the skeleton
+func (f *skFunc) pure(out []skNode, lhs []ast.Expr) []skNode {
+	assigns := false
+	for _, l := range lhs {
+		if id, ok := l.(*ast.Ident); ok {
+			if f.errVars[id.Name] {
+				assigns = true
+			}
+			delete(f.nonNil, id.Name)
+		}
+	}
+	if assigns && !skHasCall(out) {
+		return append(out, skNode{Op: "Pure"})
+	}
+	return out
+}
+
 // ---- statements -----------------------------------------------------------------------------------
 
 func (f *skFunc) block(l []ast.Stmt) []skNode {
@@ -517,7 +591,7 @@ func (f *skFunc) stmt(s ast.Stmt) []skNode {
 			}
 		}
 		f.bind(v.Lhs, v.Rhs)
-		return out
+		return f.pure(out, v.Lhs)
 	case *ast.DeclStmt:
 		gd, ok := v.Decl.(*ast.GenDecl)
 		if !ok {
@@ -544,23 +618,34 @@ func (f *skFunc) stmt(s ast.Stmt) []skNode {
 					f.class[n.Name] = c
 				}
 			}
+			lhs := make([]ast.Expr, len(vs.Names))
+			for i, n := range vs.Names {
+				lhs[i] = n
+			}
 			if len(vs.Values) > 0 {
-				lhs := make([]ast.Expr, len(vs.Names))
-				for i, n := range vs.Names {
-					lhs[i] = n
-				}
 				f.bind(lhs, vs.Values)
 			}
+			out = f.pure(out, lhs)
 		}
 		return out
 	case *ast.BlockStmt:
 		return f.block(v.List)
 	case *ast.ReturnStmt:
-		return append(f.exprs(v.Results), skNode{Op: "Return"})
+		return append(f.exprs(v.Results), skNode{Op: f.returnKind(v)})
 	case *ast.IfStmt:
 		out := f.stmt(v.Init)
 		out = append(out, f.expr(v.Cond)...)
-		n := skNode{Op: "If", Cond: f.cond(v.Cond), Th: f.block(v.Body.List)}
+		n := skNode{Op: "If", Cond: f.cond(v.Cond)}
+		proved := f.impliesNonNil(v.Cond)
+		saved := map[string]bool{}
+		for _, x := range proved {
+			saved[x] = f.nonNil[x]
+			f.nonNil[x] = true
+		}
+		n.Th = f.block(v.Body.List)
+		for _, x := range proved {
+			f.nonNil[x] = saved[x]
+		}
 		if v.Else != nil {
 			n.El = f.stmt(v.Else)
 		}
@@ -681,7 +766,7 @@ func skHasCall(l []skNode) bool {
 
 func skHasReturn(l []skNode) bool {
 	for _, n := range l {
-		if n.Op == "Return" || ((n.Op == "If" || n.Op == "Loop") && (skHasReturn(n.Th) || skHasReturn(n.El))) {
+		if strings.HasPrefix(n.Op, "Return") || ((n.Op == "If" || n.Op == "Loop") && (skHasReturn(n.Th) || skHasReturn(n.El))) {
 			return true
 		}
 	}
@@ -714,12 +799,39 @@ func skDropBranches(l []skNode) []skNode {
 // drop what has neither an effect nor a return; a loop that keeps effects must not
 // contain break/continue (the checker has no such node)
 func skSimplify(l []skNode) []skNode {
+	return skDropPure(skSimplify1(l))
+}
+
+// a Pure matters only to the node right behind it, and only if that node looks at the error
+func skDropPure(l []skNode) []skNode {
+	var out []skNode
+	for i, n := range l {
+		switch n.Op {
+		case "Pure":
+			if i+1 >= len(l) {
+				continue
+			}
+			nx := l[i+1]
+			if !(nx.Op == "Return" || (nx.Op == "If" && strings.Contains(nx.Cond, "CErr"))) {
+				continue
+			}
+		case "If":
+			n.Th, n.El = skDropPure(n.Th), skDropPure(n.El)
+		case "Loop":
+			n.Th = skDropPure(n.Th)
+		}
+		out = append(out, n)
+	}
+	return out
+}
+
+func skSimplify1(l []skNode) []skNode {
 	var out []skNode
 	for _, n := range l {
 		switch n.Op {
 		case "If":
-			n.Th, n.El = skSimplify(n.Th), skSimplify(n.El)
-			if len(n.Th) == 0 && len(n.El) == 0 {
+			n.Th, n.El = skSimplify1(n.Th), skSimplify1(n.El)
+			if skOnlyPure(n.Th) && skOnlyPure(n.El) {
 				continue
 			}
 		case "Loop":
@@ -730,14 +842,23 @@ func skSimplify(l []skNode) []skNode {
 				out = append(out, skUnknown("break/continue in a loop with effects"))
 				continue
 			}
-			n.Th = skSimplify(n.Th)
-			if len(n.Th) == 0 {
+			n.Th = skSimplify1(n.Th)
+			if skOnlyPure(n.Th) {
 				continue
 			}
 		}
 		out = append(out, n)
 	}
 	return out
+}
+
+func skOnlyPure(l []skNode) bool {
+	for _, n := range l {
+		if n.Op != "Pure" {
+			return false
+		}
+	}
+	return true
 }
 
 // ---- printing -------------------------------------------------------------------------------------
@@ -765,8 +886,8 @@ func skPrintNode(b *strings.Builder, n skNode, ind string) {
 		b.WriteString("Fn " + hx.CoqStr(n.A) + " " + hx.CoqStr(n.B))
 	case "Run":
 		b.WriteString("Run " + hx.CoqStr(n.A) + " " + hx.CoqStrList(n.Inherit))
-	case "Return":
-		b.WriteString("Return")
+	case "Return", "ReturnOk", "ReturnErr", "Pure":
+		b.WriteString(n.Op)
 	case "Loop":
 		b.WriteString("Loop\n" + ind + "  ")
 		skPrintBlock(b, n.Th, ind+"  ")
@@ -862,7 +983,12 @@ func genActionSkeleton(repo string) (string, error) {
 			} else {
 				rv, rt := skRecv(fd)
 				f := &skFunc{name: name, recv: rv, class: map[string]string{}, errVars: map[string]bool{},
-					inherit: map[string][]string{}, events: events, tracked: tracked, typeName: typeNames}
+					inherit: map[string][]string{}, events: events, tracked: tracked, typeName: typeNames, nonNil: map[string]bool{}}
+				if rs := fd.Type.Results; rs != nil && len(rs.List) > 0 {
+					if id, ok := rs.List[len(rs.List)-1].Type.(*ast.Ident); ok && id.Name == "error" {
+						f.hasErr = true
+					}
+				}
 				if rv != "" {
 					f.class[rv] = skelTypeClass[rt]
 				}
